@@ -313,7 +313,7 @@ def gen(rng, tier):
     q = tier == "quick"
     cases = []
     add = lambda s, cls: cases.append({"stream": s.hex(), "cls": cls})
-    for _ in range(90 if q else 2000):
+    for _ in range(90 if q else 6000):
         n = rng.choice([1, 1, 2, 3])
         s = b"".join(_valid_request(rng, i == n - 1, tricky_body=rng.random() < 0.2) for i in range(n))
         add(s, "valid")
